@@ -17,16 +17,14 @@ mod verif_c01_compose {
     // printed text table: (text, number of log lines it prints)
     const LOG: [(&str, usize); 3] = [("x", 1), ("x\ny", 2), ("", 1)];
 
-    fn run(use_println: bool) {
+    /// message and printed text are CONCRETE per instance (symbolic string contents make the str::lines/split machinery
+    /// explode); the bar status is symbolic
+    fn run(use_println: bool, mi: usize, li: usize) {
         let scr = leak_scr(16, 8);
         scr_with_frame(scr, 3, 0);
         let now = mk_instant(1_000_000, 0);
         let status: u8 = kani::any();
         kani::assume(status < 3);
-        let mi: usize = kani::any();
-        kani::assume(mi < 4);
-        let li: usize = kani::any();
-        kani::assume(li < 3);
         let spec = [RigPart::Key("msg")];
         let mut ps = rig_pstate(1, Some(2), 0, status);
         ps.message = TabExpandedString::new(MSG[mi].0.into(), 8);
@@ -70,27 +68,55 @@ mod verif_c01_compose {
         if ntext + nbar > 0 {
             assert!(scr.row.get() == 4 + ntext + nbar - 1);
         }
-        kani::cover!(status == 1 && use_println && nbar == 3);
+        kani::cover!(status == 1);
         kani::cover!(status == 2);
-        kani::cover!(status == 0 && mi == 2);
+        kani::cover!(status == 0);
         std::mem::forget(bs);
     }
 
-    // @harness id=C01 tier=quick timeout=3000 mem=12
-    // @bounds BarState::println: bar in progress / finished-visible / finished-and-cleared, message in {"m","a\nb","t\n\nb",""}, printed text in {"x","x\ny",""}: lines = printed lines, then one Bar line per message row (none when cleared); last_line_count = bar rows
+    // @harness id=C01 tier=quick timeout=3000 mem=14
+    // @bounds BarState::println with message "t\\n\\nb", printed text "x\\ny", bar in progress / finished-visible / finished-and-cleared (symbolic): lines = printed lines, then one Bar line per message row (none when cleared, blank rows included); last_line_count = bar rows
     #[kani::proof]
     #[kani::unwind(13)]
     //@STUBS std now widthascii repeat noterm nomulti rlany noweight
-    fn c01_compose_println() {
-        run(true);
+    fn c01_compose_println_m2_l1() {
+        run(true, 2, 1);
     }
 
-    // @harness id=C01 tier=quick timeout=3000 mem=12
-    // @bounds BarState::draw (forced), same states and messages: lines = one Bar line per message row; last_line_count = bar rows
+    // @harness id=C01 tier=quick timeout=3000 mem=14
+    // @bounds BarState::println with message "m", printed text "", bar in progress / finished-visible / finished-and-cleared (symbolic): lines = printed lines, then one Bar line per message row (none when cleared, blank rows included); last_line_count = bar rows
     #[kani::proof]
     #[kani::unwind(13)]
     //@STUBS std now widthascii repeat noterm nomulti rlany noweight
-    fn c01_compose_draw() {
-        run(false);
+    fn c01_compose_println_m0_l2() {
+        run(true, 0, 2);
     }
+
+    // @harness id=C01 tier=thorough timeout=3000 mem=14
+    // @bounds BarState::println with message "", printed text "x", bar in progress / finished-visible / finished-and-cleared (symbolic): lines = printed lines, then one Bar line per message row (none when cleared, blank rows included); last_line_count = bar rows
+    #[kani::proof]
+    #[kani::unwind(13)]
+    //@STUBS std now widthascii repeat noterm nomulti rlany noweight
+    fn c01_compose_println_m3_l0() {
+        run(true, 3, 0);
+    }
+
+    // @harness id=C01 tier=quick timeout=3000 mem=14
+    // @bounds BarState::draw (forced) with message "a\\nb", bar in progress / finished-visible / finished-and-cleared (symbolic): lines = printed lines, then one Bar line per message row (none when cleared, blank rows included); last_line_count = bar rows
+    #[kani::proof]
+    #[kani::unwind(13)]
+    //@STUBS std now widthascii repeat noterm nomulti rlany noweight
+    fn c01_compose_draw_m1() {
+        run(false, 1, 0);
+    }
+
+    // @harness id=C01 tier=thorough timeout=3000 mem=14
+    // @bounds BarState::draw (forced) with message "t\\n\\nb", bar in progress / finished-visible / finished-and-cleared (symbolic): lines = printed lines, then one Bar line per message row (none when cleared, blank rows included); last_line_count = bar rows
+    #[kani::proof]
+    #[kani::unwind(13)]
+    //@STUBS std now widthascii repeat noterm nomulti rlany noweight
+    fn c01_compose_draw_m2() {
+        run(false, 2, 0);
+    }
+
 }
